@@ -150,6 +150,12 @@ def simp : Nat → SStack → Nat → Expr → Except Err (Expr × Nat)
           match dictLookup ks vs (.str a) with
           | some r => pure (r, c1)
           | Option.none => pure (.attr v' a, c1)
+        | .call (.name "First") (first :: _) _ _ =>
+          -- the value became a First only now (a substituted argument): visit_Attribute_Of_First
+          let x := argName c1
+          let select := makeSelect first (.lam [x] (.attr (.name x) a))
+          simp fuel st (c1 + 1) (fcall "First" [select])
+        | .call (.name "First") [] _ _ => .error (.internal "IndexError")
         | _ => pure (.attr v' a, c1)
     | .sub v s => do
       let (v', c1) ← simp fuel st c v
@@ -231,6 +237,19 @@ def simp : Nat → SStack → Nat → Expr → Except Err (Expr × Nat)
           let select := makeSelect seq (.lam [x] call)
           simp fuel st (c + 1) (fcall "First" [select])
         | [] => .error (.internal "IndexError")
+      | .attr v m => do
+        -- a method call: `v.m` is visited as an attribute (dictionary fields are resolved) but is not a value to
+        -- be taken out of a First (`_method_head`)
+        let (v', c1) ← simp fuel st c v
+        let f' := match v' with
+          | .dict ks vs =>
+            (match dictLookup ks vs (.str m) with
+             | some r => r
+             | Option.none => .attr v' m)
+          | _ => .attr v' m
+        let (as', c2) ← simpL fuel st c1 args
+        let (ks', c3) ← simpL fuel st c2 kwv
+        pure (.call f' as' kwn ks', c3)
       | .name "Select" => callSelect fuel st c args kwn kwv
       | .name "SelectMany" => callSelectMany fuel st c args kwn kwv
       | .name "Where" => callWhere fuel st c args kwn kwv
